@@ -487,13 +487,16 @@ class AlignmentCollector:
         min_bins = int(AlignmentCollector.MAX_REGION_LEN / AbstractAlignmentStorage.COVERAGE_BIN)
         pos = current_start + 1
         max_cov = coverage_dict[current_start]
-        while pos <= coverage_positions[-1]:
+        # loop until every bin is covered: the last bin must get a region as well when the previous one ends on it
+        while current_start <= coverage_positions[-1]:
             while (pos <= coverage_positions[-1] and pos - current_start < min_bins) or \
                     coverage_dict[pos] > max(AlignmentCollector.ABS_COV_VALLEY, max_cov * AlignmentCollector.REL_COV_VALLEY):
                 max_cov = max(max_cov, coverage_dict[pos])
                 pos += 1
-            split_regions.append((max(current_start * AbstractAlignmentStorage.COVERAGE_BIN + 1, genomic_region[0]),
-                                  min(pos * AbstractAlignmentStorage.COVERAGE_BIN, genomic_region[1])))
+            new_region = (max(current_start * AbstractAlignmentStorage.COVERAGE_BIN + 1, genomic_region[0]),
+                          min(pos * AbstractAlignmentStorage.COVERAGE_BIN, genomic_region[1]))
+            if new_region[0] <= new_region[1]:
+                split_regions.append(new_region)
             current_start = pos
             max_cov = coverage_dict[current_start]
             pos = min(current_start + 1, coverage_positions[-1] + 1)
